@@ -30,7 +30,7 @@ COQ_EXTRA = ['Gen.C02HashSpec_ok']
 THEOREMS = [
     'C02_encode_injective', 'C02_encode_injective_gen', 'C02_lang_injective', 'C02_single_change',
     'C02_boundary_shift', 'C02_split_merge', 'C02_name_value_shift', 'C02_list_move',
-    'C02_driver_mode_table', 'C02_driver_mode_separates', 'C02_env_reaches_keys', 'C02_arch_list_covered', 'C02_pp_arch_list_covered', 'C02_extra_files_ordered', 'C02_pp_input_path_as_given', 'C02_key_iff',
+    'C02_driver_mode_table', 'C02_driver_mode_separates', 'C02_env_reaches_keys', 'C02_arch_list_covered', 'C02_pp_arch_list_covered', 'C02_extra_files_ordered', 'C02_pp_input_path_as_given', 'C02_reader_digest_pieces', 'C02_key_iff',
     'C02_pp_encode_injective', 'C02_pp_encode_injective_canon', 'C02_pp_time_salt_injective', 'C02_pp_single_change', 'C02_pp_boundary_shift', 'C02_pp_name_value_shift',
     'C02_pp_list_move', 'C02_pp_key_iff', 'C02_pp_env_covers_main', 'C02_required_vars_hashed',
     'C02_lang_pp_boundary_refuted', 'C02_extra_pp_boundary_refuted', 'C02_pp_lang_path_boundary_refuted',
@@ -153,6 +153,8 @@ def side_conditions(s):
                 s.get('extra_order') == 'InOrder', str(s.get('extra_order'))))
     res.append(('side-condition:the_input_path_mode = AsGiven (the preprocessor-level key gets cwd.join(input), not a resolved path)',
                 s.get('input_path_mode') == 'AsGiven', str(s.get('input_path_mode'))))
+    res.append(('side-condition:the_reader_loop = StopAtEof (Digest::reader_sync feeds every piece a reader delivers, until a read of 0 bytes)',
+                s.get('reader_loop') == 'StopAtEof', str(s.get('reader_loop'))))
     pf = s.get('env_prefilter')
     lost = [] if pf is None else [n.decode('latin-1') for n in s['allow_main'] + s['allow_pp'] if n not in pf]
     res.append(('side-condition:prefilter_ok (generate_hash_key passes every allow-listed variable on to the key functions)', not lost,
@@ -819,6 +821,85 @@ def stats_flow(case, out):
     return ['step=' + l.decode() for l in case[0]]
 
 
+# ------------------------------------------------------------------ leg reader: file-content digests, piece by piece
+def cut(data, sizes):
+    out, i = [], 0
+    for n in sizes:
+        if i >= len(data):
+            break
+        out.append(data[i:i + n])
+        i += n
+    if i < len(data):
+        out.append(data[i:])
+    return [p for p in out if p]
+
+
+def gen_reader(rng, tier):
+    out = []
+    sizes = [0, 1, 7, 300, 4096, 5000, 70000, 131072, 131073, 200000] if tier == 'quick' else \
+            [0, 1, 7, 300, 4096, 5000, 65536, 70000, 131071, 131072, 131073, 200000, 300000, 400000]
+    for n in sizes:
+        data = bytes((i * 131 + (i >> 8) * 7 + n) & 0xff for i in range(n))
+        members, labels = [], []
+
+        def add(label, mode, pieces):
+            labels.append(label)
+            members.append([mode, pieces])
+        add(b'whole', b'pieces', [data] if data else [])
+        add(b'file', b'file', [data] if data else [])
+        if n <= 5000:
+            add(b'bytewise', b'pieces', [data[i:i + 1] for i in range(n)])
+        add(b'4k', b'pieces', cut(data, [4096] * (n // 4096 + 1)))
+        add(b'64k-then-rest', b'pieces', cut(data, [65536]))
+        add(b'one-then-rest', b'macros', cut(data, [1]))
+        add(b'random', b'pieces', cut(data, [rng.range(1, 9000) for _ in range(60)]))
+        add(b'random-macros', b'macros', cut(data, [rng.range(1, 70000) for _ in range(12)]))
+        if 1 < n <= 70000:
+            add(b'fifo-two-chunks', b'fifo', cut(data, [n // 3]))
+        if n > 1:
+            # a file that differs only AFTER the first piece
+            other = data[:n // 3] + bytes([data[n // 3] ^ 1]) + data[n // 3 + 1:]
+            add(b'changed-later', b'pieces', cut(other, [n // 3]))
+            if n <= 70000:
+                add(b'changed-later-fifo', b'fifo', cut(other, [n // 3]))
+        out.append([labels, members])
+    return out
+
+
+def monitor_reader(case, out):
+    labels, members = case
+    vs = []
+    if not isinstance(out, list) or len(out) != len(members):
+        return ['malformed implementation output %r' % (out,)]
+    datas = [b''.join(m[1]) for m in members]
+    for i, o in enumerate(out):
+        if not (isinstance(o, bytes) and len(o) == 64):
+            vs.append('member %d (%s): no digest (%r)' % (i, labels[i].decode(), o))
+    for i in range(len(members)):
+        for j in range(i + 1, len(members)):
+            a, b = out[i], out[j]
+            if not (isinstance(a, bytes) and isinstance(b, bytes) and len(a) == 64 and len(b) == 64):
+                continue
+            if datas[i] == datas[j] and a != b:
+                vs.append('Digest of the same %d bytes depends on how the reader delivers them: %s (%s, %d pieces) -> %s, %s (%s, %d pieces) -> %s'
+                          % (len(datas[i]), labels[i].decode(), members[i][0].decode(), len(members[i][1]), a.decode(),
+                             labels[j].decode(), members[j][0].decode(), len(members[j][1]), b.decode()))
+            if datas[i] != datas[j] and a == b:
+                vs.append('two different contents (%d bytes, first difference at byte %d) get ONE digest %s: %s (%s, pieces %s) and %s (%s, pieces %s)'
+                          % (len(datas[i]), next(k for k in range(min(len(datas[i]), len(datas[j]))) if datas[i][k] != datas[j][k]),
+                             a.decode(), labels[i].decode(), members[i][0].decode(), [len(p) for p in members[i][1]][:6],
+                             labels[j].decode(), members[j][0].decode(), [len(p) for p in members[j][1]][:6]))
+    return vs[:4]
+
+
+def shrink_reader(case):
+    labels, members = case
+    if len(members) > 2:
+        for i in range(len(members)):
+            for j in range(i + 1, len(members)):
+                yield [[labels[i], labels[j]], [members[i], members[j]]]
+
+
 def gen_lp(rng, tier):
     out = [b'', b'a', b'\0', bytes(range(256)), b'=' * 61, b'x' * 255, b'x' * 256, b'x' * 257, b'y' * 65536, b'z' * 65537]
     for _ in range(3000 if tier == 'quick' else 30000):
@@ -1048,6 +1129,12 @@ def legs(tier):
                  'one binary with full version strings that share the first dotted number; extra hashed files rewritten '
                  'between requests (same size + same old mtime, same size + new mtime, other size, back); keys must '
                  'differ exactly when a hashed component differs'),
+        Leg('reader', gen_reader, monitor=monitor_reader, shrink=shrink_reader, compare=CHAIN,
+            stats=lambda case, out: ['mode=%s' % m[0].decode() for m in case[1]],
+            rule='file-content digests: the real Digest::reader_sync / reader_sync_time_macros on a Read that delivers one '
+                 'piece per call (1 byte, 4 KiB, 64 KiB then rest, random), Digest::reader_sync on a real FIFO written in '
+                 'two chunks, Digest::file on a regular file, sizes around the 128 KiB buffer; against BLAKE3 of all bytes '
+                 '(model: loop_fed) and against each other; a change after the first piece must change the digest'),
         Leg('ppkey-root', gen_ppkey_root, monitor=make_monitor('p'), classify=classify, stats=stats, shrink=shrink,
             compare=CHAIN,
             rule='the same leg inside a private root directory (chroot under /dev/shm), so that absolute paths which '
